@@ -68,8 +68,12 @@ REPLAY_FIXED = """                request = self._original_request.copy()
                 # credentials or cookies must not follow to another host.
                 request.fields.pop('Host', None)
 
-                if request.url_info.hostname_with_port != \\
-                        self._original_request.url_info.hostname_with_port:
+                if (request.url_info.scheme,
+                        request.url_info.hostname_with_port) != \\
+                        (self._original_request.url_info.scheme,
+                         self._original_request.url_info.hostname_with_port):
+                    # hostname_with_port leaves default ports out: without
+                    # the scheme https://h/ and http://h/ would look alike
                     request.fields.pop('Authorization', None)
                     request.fields.pop('Cookie', None)
             else:
@@ -83,7 +87,8 @@ REPLAY_FIXED_RENAMED = """                replay = self._original_request.copy()
                 replay.url = url
                 _logger.debug('Replaying the original request.')
 
-                if previous_host == replay.url_info.hostname_with_port:
+                if previous_host == replay.url_info.hostname_with_port and \\
+                        self._original_request.url_info.scheme == replay.url_info.scheme:
                     pass
                 else:
                     del replay.fields['Cookie']
@@ -147,9 +152,13 @@ ENTRIES = [
     B('regress-sticky-host', WEB, "                request.fields.pop('Host', None)\n", "", 'C16-D2'),
     B('regress-sticky-cookie', WEB, "                    request.fields.pop('Cookie', None)\n", "", 'C16-D2'),
     B('regress-whole-fix', WEB, REPLAY_FIXED, REPLAY_PINNED + "\n            request.prepare_for_send()\n", 'C16-D2'),
-    B('host-test-inverted', WEB, "                if request.url_info.hostname_with_port != \\\n", "                if request.url_info.hostname_with_port == \\\n", 'C16-D2'),
-    B('host-test-against-itself', WEB, "                        self._original_request.url_info.hostname_with_port:\n",
-      "                        request.url_info.hostname_with_port:\n", 'C16-D2'),
+    B('host-test-inverted', WEB, "                        request.url_info.hostname_with_port) != \\\n", "                        request.url_info.hostname_with_port) == \\\n", 'C16-D2'),
+    B('host-test-against-itself', WEB, "                        (self._original_request.url_info.scheme,\n                         self._original_request.url_info.hostname_with_port):\n",
+      "                        (request.url_info.scheme,\n                         request.url_info.hostname_with_port):\n", 'C16-D2'),
+    B('regress-replay-scheme-not-compared', WEB, "                if (request.url_info.scheme,\n                        request.url_info.hostname_with_port) != \\\n                        (self._original_request.url_info.scheme,\n                         self._original_request.url_info.hostname_with_port):\n",
+      "                if request.url_info.hostname_with_port != \\\n                        self._original_request.url_info.hostname_with_port:\n", 'C16-D2'),
+    N('replay-origin-test-or-form', WEB, "                if (request.url_info.scheme,\n                        request.url_info.hostname_with_port) != \\\n                        (self._original_request.url_info.scheme,\n                         self._original_request.url_info.hostname_with_port):\n",
+      "                if request.url_info.hostname_with_port != self._original_request.url_info.hostname_with_port \\\n                        or request.url_info.scheme != self._original_request.url_info.scheme:\n"),
     B('redirect-reuses-sent-request', WEB, "                request = self._request_factory(url)\n",
       "                request = self._next_request\n                request.url_info = URLInfo.parse(url)\n", 'C16-D2'),
     B('authentication-retry-retargeted', WEB, "        self._add_basic_auth_header(self._next_request)\n        self._loop_type = LoopType.authentication\n",
@@ -197,8 +206,8 @@ ENTRIES = [
     # ------------------------------------------------------------------ benign
     N('replay-host-popped-before-store', WEB, "                request.url = url\n\n                # The copy was prepared for (and authenticated to) the\n                # previous host. Host must be derived from the new URL, and\n                # credentials or cookies must not follow to another host.\n                request.fields.pop('Host', None)\n",
       "                request.fields.pop('Host', None)\n                request.url = url\n"),
-    N('replay-host-dropped-with-credentials', WEB, "                request.fields.pop('Host', None)\n\n                if request.url_info.hostname_with_port != \\\n                        self._original_request.url_info.hostname_with_port:\n",
-      "                if request.url_info.hostname_with_port != \\\n                        self._original_request.url_info.hostname_with_port:\n                    request.fields.pop('Host', None)\n"),
+    N('replay-host-dropped-with-credentials', WEB, "                request.fields.pop('Host', None)\n\n                if (request.url_info.scheme,\n                        request.url_info.hostname_with_port) != \\\n                        (self._original_request.url_info.scheme,\n                         self._original_request.url_info.hostname_with_port):\n                    # hostname_with_port leaves default ports out: without\n                    # the scheme https://h/ and http://h/ would look alike\n",
+      "                if (request.url_info.scheme,\n                        request.url_info.hostname_with_port) != \\\n                        (self._original_request.url_info.scheme,\n                         self._original_request.url_info.hostname_with_port):\n                    # hostname_with_port leaves default ports out: without\n                    # the scheme https://h/ and http://h/ would look alike\n                    request.fields.pop('Host', None)\n"),
     {'id': 'C16/benign-host-always-recomputed', 'prop': 'C16', 'kind': 'benign', 'edits': [
         (REQ, "        if 'Host' not in self.fields:\n            self.fields['Host'] = url_info.hostname_with_port\n",
          "        self.fields['Host'] = url_info.hostname_with_port\n"),
@@ -211,7 +220,7 @@ ENTRIES = [
       "        line = (self.method + ' ' + self.resource_path + ' ' + self.version).encode(self.encoding)\n"
       "        header = self.fields.to_bytes(errors='replace')\n\n        return line + b'\\r\\n' + header + b'\\r\\n'\n"),
     N('replay-fix-respelled', WEB, REPLAY_FIXED, REPLAY_FIXED_RENAMED),
-    N('replay-fix-unconditional-drop', WEB, "                if request.url_info.hostname_with_port != \\\n                        self._original_request.url_info.hostname_with_port:\n                    request.fields.pop('Authorization', None)\n                    request.fields.pop('Cookie', None)\n",
+    N('replay-fix-unconditional-drop', WEB, "                if (request.url_info.scheme,\n                        request.url_info.hostname_with_port) != \\\n                        (self._original_request.url_info.scheme,\n                         self._original_request.url_info.hostname_with_port):\n                    # hostname_with_port leaves default ports out: without\n                    # the scheme https://h/ and http://h/ would look alike\n                    request.fields.pop('Authorization', None)\n                    request.fields.pop('Cookie', None)\n",
       "                request.fields.pop('Authorization', None)\n                request.fields.pop('Cookie', None)\n"),
     N('start-gate-local', WEB, START_GATE,
       "        url_info = request.url_info\n        known_host = url_info.hostname_with_port in self._hostnames_with_auth\n\n"
